@@ -167,7 +167,7 @@ def run(ctx):
                 "(#classes, block sizes, identity order?, has cross-DEX field access)")
     ctx.assumptions = ["differences that consist ONLY of dropped accesses to fields defined in another DEX are attributed to the known C14 mechanism cross-dex-field-access-dropped",
                        "FieldAnalysis objects of one field are merged in the dump (duplicate FieldAnalysis objects are C14's finding)"]
-    n = 64 if ctx.quick else 1600
+    n = 64 if ctx.quick else 4800
     ctx.run_shards(MOD, "shard", [[i, n // 16] for i in range(16)], timeout=3000)
     ctx.require_counter("split_analyses", 200)
     ctx.min_distinct = 8
